@@ -36,6 +36,10 @@ type c01Case struct {
 	ReadAPI string  // read | reader
 	Buf     int
 	Early   bool // the client starts writing as soon as it has the 101, before the server has taken the connection over
+	// StallLen > 0: before the exchange, one Write of StallLen bytes (client to server when StallClient) is held up by the
+	// transport after StallAt bytes, and the caller's buffer is looked at while the call is blocked.
+	StallLen, StallAt int
+	StallClient       bool
 }
 
 func genC01Len(rt *rapid.T, big bool) int {
@@ -125,6 +129,31 @@ func runC01(t fataler, c c01Case) (string, c01Result) {
 	}
 	pr.Cl.SetReadLimit(-1)
 	pr.Sv.SetReadLimit(-1)
+	if c.StallLen > 0 && spec.AfterDial == nil {
+		from, to, gate := pr.Cl, pr.Sv, pr.SvEnd
+		if !c.StallClient {
+			from, to, gate = pr.Sv, pr.Cl, pr.ClEnd
+		}
+		payload := expand(ckRandom, 4242, c.StallLen)
+		keep := append([]byte(nil), payload...)
+		gate.SetInBudget(int64(c.StallAt))
+		var werr, rerr error
+		var got []byte
+		wd := e.Call(func() { werr = from.Write(ctx, websocket.MessageBinary, payload) })
+		synctest.Wait()
+		intact := bytes.Equal(payload, keep)
+		gate.SetInBudget(-1)
+		rd := e.Call(func() { _, got, rerr = to.Read(ctx) })
+		if !within(wd, 60*time.Second) || !within(rd, 60*time.Second) || werr != nil || rerr != nil {
+			return fmt.Sprintf("stalled write of %d bytes (held after %d): write err=%v read err=%v", c.StallLen, c.StallAt, werr, rerr), res
+		}
+		if !intact {
+			return fmt.Sprintf("the caller's buffer (%d bytes) differed from what was handed over WHILE the Write was held up in the transport after %d bytes", c.StallLen, c.StallAt), res
+		}
+		if !bytes.Equal(payload, keep) || !bytes.Equal(got, keep) {
+			return fmt.Sprintf("stalled write of %d bytes: buffer modified or message altered (first difference at %d)", c.StallLen, firstDiff(got, keep)), res
+		}
+	}
 	dirs[0].from, dirs[0].to = pr.Cl, pr.Sv
 	dirs[1].from, dirs[1].to = pr.Sv, pr.Cl
 	for _, d := range dirs {
@@ -271,7 +300,7 @@ func runC01(t fataler, c c01Case) (string, c01Result) {
 }
 
 func c01Classes(c c01Case, res c01Result) (bool, string, []string) {
-	shape := fmt.Sprintf("%s/%s|%d/%d|%d/%d|%s|%v", modeName(c.Spec.ClMode), modeName(c.Spec.SvMode), c.Spec.ClThreshold, c.Spec.SvThreshold, c.Spec.Capacity, c.Spec.MaxRead, c.ReadAPI, c.Early)
+	shape := fmt.Sprintf("%s/%s|%d/%d|%d/%d|%s|%v|%d/%d/%v", modeName(c.Spec.ClMode), modeName(c.Spec.SvMode), c.Spec.ClThreshold, c.Spec.SvThreshold, c.Spec.Capacity, c.Spec.MaxRead, c.ReadAPI, c.Early, c.StallLen, c.StallAt, c.StallClient)
 	for _, ops := range [][]outOp{c.ToSrv, c.ToCl} {
 		shape += "|"
 		for _, o := range ops {
@@ -297,6 +326,9 @@ func c01Classes(c c01Case, res c01Result) (bool, string, []string) {
 	if c.Early && len(c.ToSrv) > 0 {
 		classes = append(classes, "client-bytes-buffered-before-hijack")
 	}
+	if c.StallLen > 0 && !(c.Early && len(c.ToSrv) > 0) {
+		classes = append(classes, "caller-buffer-inspected-during-a-stalled-write")
+	}
 	for _, ops := range [][]outOp{c.ToSrv, c.ToCl} {
 		for _, o := range ops {
 			if o.Kind == "wping" {
@@ -310,7 +342,7 @@ func c01Classes(c c01Case, res c01Result) (bool, string, []string) {
 
 func TestC01(t *testing.T) {
 	rec := evid.For("C01")
-	rec.Rule = "library client <-> library server over a tapped in-memory transport: rapid draws the 3x3 compression modes, thresholds {default,1,64,512,5000,100000}^2, transport buffer capacity and read chunking, 0-12 messages per direction (both directions at once) with boundary-biased lengths (0..70000, framing boundaries 125/126/65535/65536, multiples of 4096, 1 MiB, 1 MiB+1; thorough: 4 MiB), five content kinds incl. long-range repeats beyond the 32 KiB window, Write or Writer with chunk lists from {0,1,3,125,126,4095,4096,4097,8192,40000} or a Writer message interrupted by a Ping call after its first Write, in a sixth of the cases the client starts writing as soon as it has the 101 so that its first frames are already buffered in the hijacked bufio.Reader when Accept takes over; read by Read or Reader with buffers 1..32768; plus a deterministic boundary sweep. Oracle: same count, order, type, byte-identical payloads, clean EOF, caller buffers unchanged, nothing extra. Non-trivial: the wire tap shows an RSV1 message or a message of >=2 frames. distinct = hash(modes, thresholds, transport, per-message (kind, content kind, length class, chunks))."
+	rec.Rule = "library client <-> library server over a tapped in-memory transport: rapid draws the 3x3 compression modes, thresholds {default,1,64,512,5000,100000}^2, transport buffer capacity and read chunking, 0-12 messages per direction (both directions at once) with boundary-biased lengths (0..70000, framing boundaries 125/126/65535/65536, multiples of 4096, 1 MiB, 1 MiB+1; thorough: 4 MiB), five content kinds incl. long-range repeats beyond the 32 KiB window, Write or Writer with chunk lists from {0,1,3,125,126,4095,4096,4097,8192,40000} or a Writer message interrupted by a Ping call after its first Write, in a quarter of the cases a Write of up to 70000 bytes is first held up by the transport after a drawn number of bytes and the caller's buffer compared while the call is blocked, in a sixth of the cases the client starts writing as soon as it has the 101 so that its first frames are already buffered in the hijacked bufio.Reader when Accept takes over; read by Read or Reader with buffers 1..32768; plus a deterministic boundary sweep. Oracle: same count, order, type, byte-identical payloads, clean EOF, caller buffers unchanged, nothing extra. Non-trivial: the wire tap shows an RSV1 message or a message of >=2 frames. distinct = hash(modes, thresholds, transport, per-message (kind, content kind, length class, chunks))."
 	rapid.Check(t, func(rt *rapid.T) {
 		var c c01Case
 		c.Spec.ClMode = rapid.SampledFrom(c01Modes).Draw(rt, "clMode")
@@ -324,6 +356,11 @@ func TestC01(t *testing.T) {
 		c.ReadAPI = rapid.SampledFrom([]string{"read", "reader"}).Draw(rt, "readAPI")
 		c.Buf = rapid.SampledFrom([]int{1, 7, 512, 4096, 32768}).Draw(rt, "buf")
 		c.Early = rapid.IntRange(0, 5).Draw(rt, "early") == 0
+		if rapid.IntRange(0, 3).Draw(rt, "stallProbe") == 0 {
+			c.StallLen = rapid.SampledFrom([]int{100, 5000, 9000, 20000, 70000}).Draw(rt, "stallLen")
+			c.StallAt = rapid.SampledFrom([]int{0, 1, 100, 4200, 8300, 12500, c.StallLen / 2}).Draw(rt, "stallAt")
+			c.StallClient = rapid.IntRange(0, 3).Draw(rt, "stallClient") != 0
+		}
 		if c.Spec.Capacity != 0 {
 			// Pongs are written by the goroutine that reads. With a bounded transport buffer
 			// and Pings travelling in both directions at once, both readers can end up
